@@ -1250,4 +1250,84 @@ theorem legacy_mode_atoms :
   refine ⟨?_, ?_, ?_, ?_, ?_, ?_, ?_, ?_, ?_, ?_, ?_, ?_, ?_, ?_⟩ <;> rfl
 
 
+/-! ### `dictOf`: a repeated name keeps the cells of its LAST occurrence (lookup lemma, open since review s1) -/
+
+theorem lookup_mapSet_ne {α} (d : List (String × α)) (a : String) (v : α) (k : String) (hk : (k == a) = false) :
+    List.lookup k (d.map fun c => if c.1 == a then (a, v) else c) = List.lookup k d := by
+  induction d with
+  | nil => rfl
+  | cons c rest ih =>
+    obtain ⟨c1, c2⟩ := c
+    simp only [List.map_cons, List.lookup_cons]
+    by_cases hc : (c1 == a) = true
+    · have e : c1 = a := by simpa using hc
+      have hkc : (k == c1) = false := by rw [e]; exact hk
+      simp only [hc, if_true, hk, hkc, ih, List.lookup_cons]
+    · have hc' : (c1 == a) = false := by simpa using hc
+      simp only [hc', Bool.false_eq_true, if_false, ih, List.lookup_cons]
+
+theorem lookup_mapSet_eq {α} (d : List (String × α)) (a : String) (v : α) (h : d.any (·.1 == a) = true) :
+    List.lookup a (d.map fun c => if c.1 == a then (a, v) else c) = some v := by
+  induction d with
+  | nil => simp at h
+  | cons c rest ih =>
+    obtain ⟨c1, c2⟩ := c
+    simp only [List.map_cons]
+    by_cases hc : (c1 == a) = true
+    · simp [hc, List.lookup_cons]
+    · have hc' : (c1 == a) = false := by simpa using hc
+      have hac : (a == c1) = false := by
+        rw [beq_eq_false_iff_ne] at hc' ⊢; exact fun e => hc' e.symm
+      simp only [hc', Bool.false_eq_true, if_false, hac, List.lookup_cons]
+      exact ih (by simpa [List.any_cons, hc'] using h)
+
+theorem lookup_dictSet {α} (d : List (String × α)) (a : String) (v : α) (k : String) :
+    List.lookup k (dictSet d a v) = if k == a then some v else List.lookup k d := by
+  unfold dictSet
+  by_cases hk : (k == a) = true
+  · have e : k = a := by simpa using hk
+    subst e
+    simp only [beq_self_eq_true, if_true]
+    by_cases hany : d.any (·.1 == k) = true
+    · rw [if_pos hany]; exact lookup_mapSet_eq d k v hany
+    · rw [if_neg hany, List.lookup_append]
+      have : List.lookup k d = Option.none := by
+        rw [List.lookup_eq_none_iff]
+        intro p hp
+        simp only [List.any_eq_true, not_exists, not_and] at hany
+        have := hany p hp
+        rw [bne_iff_ne]
+        intro e; exact this (by simp [e])
+      simp [this]
+  · have hk' : (k == a) = false := by simpa using hk
+    simp only [hk', Bool.false_eq_true, if_false]
+    by_cases hany : d.any (·.1 == a) = true
+    · rw [if_pos hany]; exact lookup_mapSet_ne d a v k hk'
+    · rw [if_neg hany, List.lookup_append]
+      simp [List.lookup_cons, hk']
+
+theorem lookup_foldl_dictSet {α} (kvs d : List (String × α)) (k : String) :
+    List.lookup k (kvs.foldl (fun d kv => dictSet d kv.1 kv.2) d) = (List.lookup k kvs.reverse).or (List.lookup k d) := by
+  induction kvs generalizing d with
+  | nil => simp
+  | cons kv rest ih =>
+    obtain ⟨k1, v1⟩ := kv
+    rw [List.foldl_cons, ih, lookup_dictSet, List.reverse_cons, List.lookup_append]
+    cases List.lookup k rest.reverse with
+    | some v => simp
+    | none =>
+      simp only [Option.none_or, List.lookup_cons, List.lookup_nil]
+      by_cases hk : (k == k1) = true <;> simp [hk, List.lookup_cons]
+
+/-- **`dict(zip(names, columns))`**: looking a name up in `dictOf kvs` gives the cells of its LAST occurrence in `kvs` (lookup in the reversed list) -
+what `join_dup_spec`'s key part means for `x.join(y, ['a','a'], ['a','b'])`: the column `a` holds the SECOND key component -/
+theorem dictOf_lookup {α} (kvs : List (String × α)) (k : String) :
+    List.lookup k (dictOf kvs) = List.lookup k kvs.reverse := by
+  unfold dictOf
+  rw [lookup_foldl_dictSet]
+  simp
+
+example : List.lookup "a" (dictOf [("a", 1), ("b", 2), ("a", 3)]) = some 3 := by
+  rw [dictOf_lookup]; rfl
+
 end Pyg.Props.C02
